@@ -35,3 +35,12 @@ Qed.
 
 Lemma sempty_app a b : sempty (a ++ b) = (sempty a && sempty b)%bool.
 Proof. destruct a; simpl; reflexivity. Qed.
+
+(* compact literal for arbitrary bytes: hx "e29c93" is the 3-byte string E2 9C 93 (lower-case hex digits) *)
+Definition hexval (c : ascii) : nat :=
+  let n := nat_of_ascii c in if Nat.leb 97 n then n - 87 else n - 48.
+Fixpoint hx (s : string) : string :=
+  match s with
+  | String a (String b r) => String (ascii_of_nat (16 * hexval a + hexval b)) (hx r)
+  | _ => EmptyString
+  end.
